@@ -358,7 +358,7 @@ pub fn run(ctx: &Ctx) -> (Acc, String, bool) {
         counts.push((l, total_ex, c));
         total_ex += c;
     }
-    let random_total: u64 = ctx.pick(4_000, 150_000);
+    let random_total: u64 = ctx.pick(40_000, 3_000_000);
     let seed = ctx.seed;
     let absent = [0u64, 1, u64::MAX, 0x1234_5678, 3];
     let acc = run_cases(ctx, total_ex + random_total, |i, acc| {
